@@ -44,6 +44,19 @@ Theorem C32_order_independent : forall fuel kvs kvs', Permutation kvs kvs' -> No
 Proof. intros. rewrite !flatten_is_encf. apply encf_dict_order; auto. Qed.
 Print Assumptions C32_order_independent.
 
+(* determinism: the hashed key — hence the name, a function of it (C32_name_function_of_crcs) — is a function
+   of the inputs alone: nothing else enters verify_key / flatten, and the order in which the keyword dictionary
+   holds its entries (keyword order at the call, hash seed) is irrelevant *)
+Theorem C32_key_deterministic : forall fuel i j,
+  i_version i = i_version j -> i_vvm i = i_vvm j -> i_preamble i = i_preamble j -> i_sources i = i_sources j ->
+  Permutation (i_kwds i) (i_kwds j) -> NoDup (map fst (i_kwds i)) ->
+  key_of fuel i = key_of fuel j.
+Proof.
+  intros fuel i j Hv Hm Hp Hs P N. unfold key_of.
+  rewrite (C32_order_independent fuel _ _ P N), Hv, Hm, Hp, Hs. reflexivity.
+Qed.
+Print Assumptions C32_key_deterministic.
+
 (* the hashed text is an injective encoding of (version, verifier version, preamble, kwds, cdef sources)
    when version, preamble and sources contain no NUL *)
 Theorem C32_key_injective : forall fuel fuel' i j k, nulfree_inputs i -> nulfree_inputs j ->
